@@ -1,7 +1,195 @@
-/- Line-protocol engine for C15 — stub, to be filled in. -/
-import CV.Proto
+/- Line-protocol engine for C15 (discovery-chain compilation). See go/overlay/internal/verifharness/c15.
+
+Separators by nesting level:  `,` items · `|` fields · `!` sub-items · `;` sub-fields · `+` sub-sub-items ·
+`~` sub-sub-fields; `-` is the empty list / absent value at every level; strings are `CV.encS` tokens.
+
+  compile <ctx> <routers> <splitters> <resolvers> <services> <proxy>     one-shot `discoverychain.Compile`
+  reset | put <K> <item> | del <K> <name> | dump | chain <ctx>            the config-entry store
+-/
+import CV.Chain
 namespace CV.Engine.C15
-open CV
-def step (_ : Unit) (_toks : List String) : Unit × String := ((), "bad-op")
-def engine : Engine := { State := Unit, init := (), step := step }
+open CV CV.Chain
+
+def lst (sep : String) (tok : String) : List String := if tok == "-" then [] else tok.splitOn sep
+
+def pOpts6 (sep : String) (tok : String) : Option Opts :=
+  match (tok.splitOn sep).mapM decS with
+  | some [a, b, c, d, e, f] => some ⟨a, b, c, d, e, f⟩
+  | _ => none
+
+def pCtx (tok : String) : Option Ctx :=
+  match tok.splitOn ";" with
+  | [a, b, c, d, e, f, g, h] => do
+    pure { svc := ← decS a, ns := ← decS b, part := ← decS c, dc := ← decS d, td := ← decS e,
+           ovMgw := ← decS f, ovProto := ← decS g, ovCT := ← h.toNat? }
+  | _ => none
+
+def pRoute (tok : String) : Option Route :=
+  match (tok.splitOn ";").mapM decS with
+  | some [p, a, b, c, d] => some ⟨p, { svc := a, subset := b, ns := c, part := d }⟩
+  | _ => none
+
+def pRouter (tok : String) : Option (String × List Route) :=
+  match tok.splitOn "|" with
+  | [n, rs] => do pure (← decS n, ← (lst "!" rs).mapM pRoute)
+  | _ => none
+
+def pSplit (tok : String) : Option Split :=
+  match tok.splitOn ";" with
+  | [w, a, b] => do pure ⟨← w.toNat?, ← decS a, ← decS b⟩
+  | _ => none
+
+def pSplitter (tok : String) : Option (String × List Split) :=
+  match tok.splitOn "|" with
+  | [n, ss] => do pure (← decS n, ← (lst "!" ss).mapM pSplit)
+  | _ => none
+
+def pSubset (tok : String) : Option (String × Nat) :=
+  match tok.splitOn ";" with
+  | [n, d] => do pure (← decS n, ← d.toNat?)
+  | _ => none
+
+def pFailover (tok : String) : Option (String × Failover) :=
+  match tok.splitOn ";" with
+  | [k, a, b, c, dcs, ts] => do
+    pure (← decS k, { svc := ← decS a, subset := ← decS b, ns := ← decS c,
+                      dcs := ← (lst "+" dcs).mapM decS, targets := ← (lst "+" ts).mapM (pOpts6 "~") })
+  | _ => none
+
+def pResolver (tok : String) : Option (String × Resolver) :=
+  match tok.splitOn "|" with
+  | [n, ds, subs, rd, fo, ct, rt, lb] => do
+    let redirect ← if rd == "-" then pure none else (pOpts6 ";" rd).map some
+    let lb' ← if lb == "-" then pure none else (decS lb).map some
+    pure (← decS n, { defaultSubset := ← decS ds, subsets := ← (lst "!" subs).mapM pSubset, redirect := redirect,
+                      failover := ← (lst "!" fo).mapM pFailover, ct := ← ct.toNat?, rt := ← rt.toNat?, lb := lb' })
+  | _ => none
+
+def pService (tok : String) : Option (String × SvcDef) :=
+  match (tok.splitOn "|").mapM decS with
+  | some [n, p, x, m] => some (n, ⟨p, x, m⟩)
+  | _ => none
+
+def pProxy (tok : String) : Option (Option ProxyDef) :=
+  if tok == "-" then some none
+  else match (tok.splitOn "|").mapM decS with
+    | some [p, m] => some (some ⟨p, m⟩)
+    | _ => none
+
+def pEntries (r s v d p : String) : Option Entries := do
+  pure { routers := ← (lst "," r).mapM pRouter, splitters := ← (lst "," s).mapM pSplitter,
+         resolvers := ← (lst "," v).mapM pResolver, services := ← (lst "," d).mapM pService, proxy := ← pProxy p }
+
+/-! ### printing -/
+
+def eLb (lb : Option String) : String :=
+  match lb with
+  | some p => encS p
+  | none => "-"
+
+def eList (sep : String) (l : List String) : String := if l.isEmpty then "-" else sep.intercalate l
+
+def eNode (kv : String × Node) : String :=
+  match kv.2 with
+  | .router rs => encS kv.1 ++ "|R|" ++ eList "!" (rs.map fun r => encS r.1 ++ ";" ++ encS r.2)
+  | .splitter ss lb => encS kv.1 ++ "|S|" ++ eLb lb ++ "|" ++
+      eList "!" (ss.map fun s => toString s.weight ++ ";" ++ encS s.next ++ ";" ++ encS s.dsvc ++ ";" ++ encS s.dsub)
+  | .resolver d ct rt tgt fo lb => encS kv.1 ++ "|V|" ++ encBool d ++ "|" ++ toString ct ++ "|" ++ toString rt ++ "|" ++
+      encS tgt ++ "|" ++ eList "+" (fo.map encS) ++ "|" ++ eLb lb
+
+def eTarget (kv : String × TInfo) : String :=
+  let i := kv.2
+  "|".intercalate [encS kv.1, encS i.t.svc, encS i.t.subset, encS i.t.ns, encS i.t.part, encS i.t.dc, encS i.t.peer,
+    toString i.ct, encBool i.external, encS i.sni, encS i.mgw, toString i.subsetDef]
+
+/-- sort an association list by key (`sortKeys` order) -/
+def sortByKey {α : Type} (l : List (String × α)) : List (String × α) :=
+  (sortKeys (akeys l)).filterMap fun k => (alook k l).map fun v => (k, v)
+
+def eErr : Err → String
+  | .badRequest => "bad-request" | .protoMismatch => "proto-mismatch" | .circularRef => "circular-ref"
+  | .circularRedirect => "circular-redirect" | .noSubset => "no-subset" | .extRedirect => "ext-redirect"
+  | .extSubsets => "ext-subsets" | .extFailover => "ext-failover" | .noAdvRouting => "no-adv-routing"
+  | .internal _ => "internal"
+
+def eResult (r : Except Err Chain) : String :=
+  match r with
+  | .error e => "err " ++ eErr e
+  | .ok c => "ok p=" ++ encS c.proto ++ " s=" ++ encS c.start ++ " d=" ++ encBool c.isDefault ++ " c=" ++ encBool c.customized ++
+      " n=" ++ eList "," ((sortByKey c.nodes).map eNode) ++ " t=" ++ eList "," ((sortByKey c.targets).map eTarget)
+
+/-! ### store dump (canonical: each table sorted by name) -/
+
+def eOpts6 (sep : String) (o : Opts) : String := sep.intercalate (o.fields.map encS)
+
+def eRouter (kv : String × List Route) : String :=
+  encS kv.1 ++ "|" ++ eList "!" (kv.2.map fun r => ";".intercalate [encS r.pfx, encS r.dest.svc, encS r.dest.subset, encS r.dest.ns, encS r.dest.part])
+
+def eSplitter (kv : String × List Split) : String :=
+  encS kv.1 ++ "|" ++ eList "!" (kv.2.map fun s => toString s.weight ++ ";" ++ encS s.svc ++ ";" ++ encS s.subset)
+
+def eFailover (kf : String × Failover) : String :=
+  ";".intercalate [encS kf.1, encS kf.2.svc, encS kf.2.subset, encS kf.2.ns, eList "+" (kf.2.dcs.map encS),
+    eList "+" (kf.2.targets.map (eOpts6 "~"))]
+
+def eResolver (kv : String × Resolver) : String :=
+  let r := kv.2
+  "|".intercalate [encS kv.1, encS r.defaultSubset,
+    eList "!" ((sortByKey r.subsets).map fun s => encS s.1 ++ ";" ++ toString s.2),
+    (match r.redirect with | some o => eOpts6 ";" o | none => "-"),
+    eList "!" ((sortByKey r.failover).map eFailover), toString r.ct, toString r.rt, eLb r.lb]
+
+def eService (kv : String × SvcDef) : String := "|".intercalate [encS kv.1, encS kv.2.proto, encS kv.2.extSNI, encS kv.2.mgw]
+
+def eStore (S : Entries) : String :=
+  "R=" ++ eList "," ((sortByKey S.routers).map eRouter) ++ " S=" ++ eList "," ((sortByKey S.splitters).map eSplitter) ++
+  " V=" ++ eList "," ((sortByKey S.resolvers).map eResolver) ++ " D=" ++ eList "," ((sortByKey S.services).map eService) ++
+  " P=" ++ (match S.proxy with | some p => encS p.proto ++ "|" ++ encS p.mgw | none => "-")
+
+def pEntry (k item : String) : Option Entry :=
+  match k with
+  | "R" => (pRouter item).map fun x => .router x.1 x.2
+  | "S" => (pSplitter item).map fun x => .splitter x.1 x.2
+  | "V" => (pResolver item).map fun x => .resolver x.1 x.2
+  | "D" => (pService item).map fun x => .service x.1 x.2
+  | "P" => match pProxy item with
+    | some (some p) => some (.proxy p)
+    | _ => none
+  | _ => none
+
+def pKind (k : String) : Option Kind :=
+  match k with
+  | "R" => some .router | "S" => some .splitter | "V" => some .resolver | "D" => some .service | "P" => some .proxy
+  | _ => none
+
+def step (S : Entries) (toks : List String) : Entries × String :=
+  match toks with
+  | ["compile", cx, r, s, v, d, p] =>
+    match pCtx cx, pEntries r s v d p with
+    | some cx, some es => (S, eResult (compile es cx))
+    | _, _ => (S, "bad-op")
+  | ["reset"] => ({}, "ok")
+  | ["put", k, item] =>
+    match pEntry k item with
+    | some e =>
+      match ensureEntry S e with
+      | some S' => (S', "ok")
+      | none => (S, "rejected")
+    | none => (S, "bad-op")
+  | ["del", k, n] =>
+    match pKind k, decS n with
+    | some k, some n =>
+      match deleteEntry S k n with
+      | some S' => (S', "ok")
+      | none => (S, "rejected")
+    | _, _ => (S, "bad-op")
+  | ["dump"] => (S, eStore S)
+  | ["chain", cx] =>
+    match pCtx cx with
+    | some cx => (S, eResult (compile S cx))
+    | none => (S, "bad-op")
+  | _ => (S, "bad-op")
+
+def engine : Engine := { State := Entries, init := {}, step := step }
+
 end CV.Engine.C15
